@@ -226,6 +226,16 @@ def print_assumptions(prop, theorems):
     return rc, closed, sorted(set(axioms)), out
 
 
+def coqchk(prop, timeout=1500):
+    """Independent re-check of props/<prop>.vo and everything it depends on; returns (rc, axioms-section text)."""
+    cmd = ['coqchk', '-silent', '-o', '-Q', 'base', 'DC', '-Q', 'gen', 'DC', '-Q', 'model', 'DC', '-Q', 'proofs', 'DC',
+           '-Q', 'props', 'DC', 'DC.' + prop]
+    rc, out, dt = run_cmd(cmd, cwd=COQ, timeout=timeout)
+    m = re.search(r'\* Axioms:(.*?)\* Constants/Inductives relying on type-in-type', out, re.S)
+    axioms = ' '.join(m.group(1).split()) if m else 'unparsed: ' + out[-300:]
+    return rc, axioms, round(dt, 1)
+
+
 def hygiene_grep():
     """The forbidden-vernacular grep over the whole development."""
     bad = []
